@@ -9,7 +9,7 @@ add("C16", "reference-model oracle + icontract postcondition on the real functio
     "Every low-pass entry point (numpy level, backend level, Fourier variants, pipeline converter, alignment "
     "pre-transform) is run on generated inputs over all side-parity classes and compared voxel by voxel with an "
     "independent float64 Butterworth reference; shape/realness, linearity, mean, identity thresholds and ft==fftn(real) "
-    "are asserted; float32/float64/int16/uint8/boolean inputs; contract K5 watches every call. Held = no disagreement on the "
+    "are asserted; float32/float64/int16/uint8/boolean inputs; a high-pass call between low-pass calls and high-pass + low-pass == image; contract K5 watches every call. Held = no disagreement on the "
     "executions of this run.",
     "Trusted: numpy.fft as reference transform; float32 tolerance 2e-4 relative. Shapes up to 17 per side only.",
     "DESIGN.md section 4 C16")
@@ -45,7 +45,8 @@ add("C12", "history + executable row model (join on unique uid after every step)
     "are compared, partitions are checked, and inconsistent inputs must be rejected or stay consistent; data-frame views are "
     "read before and after in-place appends on the same object (stale-cache detection); the source, the appended table and the "
     "parts of an accumulation loop are re-checked after every in-place append (aliasing); feature-less tables are concatenated "
-    "in any position; cutby on features with nulls; constructors with zero positions.",
+    "in any position; cutby on features with nulls; constructors with zero positions; group_by with computed keys; filters "
+    "that keep every molecule (result must be a table of its own).",
     "sample's choice and the order of equal sort keys are not predicted (subset / key-ordered permutation accepted). "
     "cutby is driven only with non-null cut columns; sort keys are non-null columns.",
     "DESIGN.md section 4 C12")
@@ -55,7 +56,8 @@ add("C13", "round-trip oracle on generated tables, byte-level suffix dispatch ch
     "features with nulls) are written and re-read through to_file/from_file (magic bytes decide which format was "
     "written), to_csv/from_csv at precisions {0,2,4,8,None}, to_parquet/from_parquet and to_dataframe/from_dataframe; "
     "row order, column layout, bit-equal positions (binary routes), float32-rotvec orientation precision, decimal "
-    "precision (CSV) and feature values/dtypes are compared; every row count 1..14 is run systematically; the saved object is edited in place and saved again.",
+    "precision (CSV) and feature values/dtypes are compared; every row count 1..14 is run systematically; the saved object is edited in place and saved again; NaN next to null features; feature names that differ from the "
+    "coordinate columns only by case.",
     "CSV strings are generated from a class that survives type inference (number-like strings, empty strings and "
     "nulls are a format limitation, exercised only through Parquet).",
     "DESIGN.md section 4 C13")
@@ -80,7 +82,7 @@ add("C15", "metamorphic oracle (binned load == block sum of the b-times larger o
     "orientations/features and the source loader are untouched, and every sub-volume loaded from the binned loader equals "
     "the block sum of the corresponding b-times larger sub-volume of the original loader. Batch loaders mix numpy and dask "
     "tomograms; dask chunk sizes are not multiples of b; molecules carry cube-symmetry rotations; integer tomograms near the top "
-    "of their range.",
+    "of their range; non-C-contiguous numpy tomograms; the binned loader keeps order, corner_safe and output_shape.",
     "Metamorphic relation is exact only for identity orientation, molecules on the binned grid and orders 0/1, which is "
     "what the workload generates.",
     "DESIGN.md section 4 C15")
@@ -91,7 +93,8 @@ add("C14", "exact-paste, metamorphic (permutation/clipping/projection) and analy
     "splits), clipping (simulate(S,pos) == simulate(S+2p,pos+p)[p:-p] for poses straddling/outside every face, no error), "
     "general pose (analytic Gaussian-mixture particle: centre of mass within 0.05 px, values within 3 %/30 % of peak for "
     "order 3/1, loader returns the template), projection (simulate_2d == z-sum of simulate). Components are given as arrays or "
-    "as ImageProviders; clipping includes volumes thinner than the template.",
+    "as ImageProviders; clipping includes volumes thinner than the template; simulators are derived with replace(); order-0 "
+    "general poses are judged voxel by voxel against a nearest-neighbour reference.",
     "Non-grid poses use templates that vanish near their box faces, as the property's quantifier stipulates. Exact-paste "
     "cases use scales for which pos/scale is an exact (half-)integer in float32.",
     "DESIGN.md section 4 C14")
@@ -104,7 +107,7 @@ add("C17", "reference-model oracle per shell + icontract K9/K6, loader-level hal
     "reproducible per seed; FSCAlignment.score is 1 on the template, bounded and symmetric. Masks are given as array, "
     "ImageProvider and ImageConverter to single, batch and group loaders; repeated calls alternate shell widths on one shape; "
     "constant and blank images are scored and aligned with FSC in both argument orders (exactly empty shells); integer against "
-    "float images.",
+    "float images; zero_norm=False entry points.",
     "Shells with a bin within 1e-6 of a shell boundary, or holding < 1e-8 of either input's power, are undecided.",
     "DESIGN.md section 4 C17")
 
@@ -116,7 +119,8 @@ add("C01", "analytic ground-truth poses (exactly rendered tomograms) + pose/feat
     "scales {1,0.5,0.7,2.3}, rotation sets given as Rotation / list / (max,step); output positions (0.25 px), orientations "
     "(0.05 deg), shift/rotation/score features are compared with the truth; align(template=list) and align(4-D template) "
     "(implicit multi-template dispatch), non-cubic boxes under rotation search and hand-made LoaderGroups of loaders with "
-    "different pixel sizes and a common constant grey level under tomogram and template are included.",
+    "different pixel sizes, a common constant grey level under tomogram and template, and (max, step) rotation ranges enumerated "
+    "by the check itself (max not a multiple of step) are included.",
     "Noise-free particles; multi-template species have equal energy (PCC scores are not normalised); template-free "
     "alignment is judged by consensus of 6 molecules (spread <= 0.5 px and <= 0.6 x the input spread).",
     "DESIGN.md section 4 C01")
@@ -156,7 +160,7 @@ add("C06", "ground-truth (template j, rotation k, shift d) planting + candidate-
     "rotations (stacked, listed or a single Rotation object) and (max, step) ranges whose end points are exact multiples are "
     "included; models carry tilt models (the wedge is the same for every candidate), fit and align must agree on every "
     "sub-volume, group mappings give different numbers of templates per key, and contrast-inverted particles make every "
-    "candidate score negative (the arg-max contract only).",
+    "candidate score negative (the arg-max contract only); non-cubic boxes; ranges whose maximum is not a multiple of the step.",
     "Oracle B relies on the model evaluating candidates through its _optimize method (observed T*K calls is asserted).",
     "DESIGN.md section 4 C06")
 
@@ -167,7 +171,9 @@ add("C03", "identity-encoded tomograms (unique value per site and image) + histo
     "sample, sort/permutation via replace, replace, copy, binning(1), groupby with iterate/filter/head/tail/sample/"
     "average/apply/align). After every step the derived loader's uids, image-id feature, sub-volume identities "
     "(asnumpy/load/apply), group partitions and, on particle worlds, the rows of align/score/construct_landscape are "
-    "compared with the model; source loaders, molecules and image registries are snapshotted before and compared after.",
+    "compared with the model; source loaders, molecules and image registries are snapshotted before and compared after. "
+    "Per-molecule keyword arguments are paired with their molecule through construct_mapping_tasks; batch loaders are taken "
+    "apart into batch.loaders and nested into other batch loaders.",
     "sample's choice itself is not predicted (duplicate-free subset accepted). Mixed int/str image ids are not generated "
     "(polars cannot hold them in one column; acryo fails loudly).",
     "DESIGN.md section 4 C03")
@@ -180,7 +186,7 @@ add("C07", "independent float64 reference pipeline for scores + consistency laws
     "four models (also for multi-candidate models with upsample > 1); loader.score and construct_landscape rows equal the "
     "model's per-sub-volume values; one model object scores many orientations under a wedge (no state carried over); every "
     "slab of a rotation landscape under a rotation-variant mask equals the landscape of a model searching that rotation alone; "
-    "ranges with zero-width components.",
+    "ranges with zero-width components; align/landscape called with an orientation but no position.",
     "The wedge mask entering the reference is the one returned by the model's public get_missing_wedge_mask (its geometry "
     "is C08's job). FSC invariance is judged on inputs whose shells all carry power. The arg-max law is judged from 6 voxels on; "
     "FSC/PCC exceedances up to 1 px whose best integer node agrees with align are the open finding "
@@ -197,7 +203,7 @@ add("C09", "one-hot identity encoding of split membership + float64 mean referen
     "Batch loaders with rotated molecules, corner_safe, orders 0/1/3 and scales must average to the count-weighted mean of "
     "single loaders built with the same options, also under explicit image ids registered out of sorted order and after "
     "dropping one tomogram and adding another with an automatic id; loaders are used before they are complete; groupings with "
-    "one-molecule groups are split.",
+    "one-molecule groups are split; another batch loader with colliding automatic ids is merged in.",
     "Identity orientation, integer sample coordinates (orders 0/1) so that the loaded blocks are known exactly (except in "
     "the rotated batch law, which compares two loader kinds with each other).",
     "DESIGN.md section 4 C09")
@@ -212,7 +218,8 @@ add("C10", "schedule/interleaving perturbation vs synchronous reference: schedul
     "to the reference, memoised helper arrays unchanged, Backend default restored; declared shapes of lazy arrays equal "
     "computed shapes for integer/fractional ranges (also beyond box/2), upsample 1-4, single/multi template; multi-candidate "
     "landscapes (landscape-rot) run under threads and injected yields; lazily binned loaders are compared across tomogram "
-    "chunkings; MockLoader sub-volumes with tilt-series noise are compared across schedules.",
+    "chunkings; MockLoader sub-volumes with tilt-series noise are compared across schedules; declared shapes of landscapes that "
+    "combine a rotation search with several templates.",
     "Interleavings are sampled, not enumerated: held = no difference on the perturbed runs of this execution (counts of "
     "injected yields, shuffled tasks, distinct signatures in the evidence). Only GIL hand-over points CPython really has "
     "(statement starts, call boundaries) are used. cupy backend absent.",
@@ -227,7 +234,8 @@ add("C18", "exact-SVD reference on planted low-rank stacks over stack chunkings 
     "Flat-spectrum (noise-dominated) stacks: singular values exact in the full-solver regime, components judged only where "
     "singular values are separated, projections == (X - mean) @ reported components. Wedge-masked-difference cases: randomly "
     "oriented molecules under five tilt models; each PCA input row must equal what a model that saw no other molecule computes. "
-    "Integer stacks under soft masks; groups of very different sizes over 12 k-means seeds.",
+    "Integer stacks under soft masks; groups of very different sizes over 12 k-means seeds; get_transform(labels) for unsorted "
+    "subsets; the deprecated tilt_range keyword.",
     "Stacks with more than 500 features take the randomised solver whose seed is drawn from numpy's global RNG; with a "
     "planted spectral gap its error is far below the 2e-3 tolerance; without a gap and more than 20 images it is inexact: "
     "open finding pca.randomized-solver-inexact (KNOWN-FINDING, bounded predicate).",
@@ -244,7 +252,8 @@ add("C19", "reference interpreter for generated pipeline expression trees + alge
     "change of length unit; converters built from ndarray parameters evaluated twice and at two scales (purity); gaussian_filter "
     "and shift against scipy for every mode and cval; from_atoms against a voxel-by-voxel weighted histogram; mask converters on "
     "objects touching the box faces; scalar arithmetic with boolean-valued pipelines; every tree is evaluated twice and the "
-    "providers' arrays re-read (purity); erosion against dilation of the complement at non-integer radii.",
+    "providers' arrays re-read (purity); erosion against dilation of the complement at non-integer radii; file providers with per-file voxel sizes; whole-pixel "
+    "shifts.",
     "Leaf pipelines are trusted inside trees (the algebra is judged there); comparisons only at the root (arithmetic on "
     "boolean arrays is numpy's semantics). radius/scale is kept away from integers so one ulp cannot flip a ceil.",
     "DESIGN.md section 4 C19")
@@ -258,6 +267,7 @@ add("C20", "planted-particle ground truth (bijection oracle) + numpy-vs-chunked 
     "must equal those of the numpy run. A quarter of the LoG/DoG images are slabs thinner than the overlap depth; template "
     "matching uses exclusion radii of 5/8/10 px given in nm with particles as close as the template allows, even-sized templates "
     "(half-integer positions), chunk borders that pass exactly through a particle centre, grey-level offsets of +5000/-20000 and "
-    "provider templates on a matcher that first served another pixel size.",
+    "provider templates on a matcher that first served another pixel size, banks of 262 rotations, diagonal neighbours inside "
+    "the exclusion cube, and constant backgrounds under LoG/DoG images (LoG: open finding log.dc-gain-plateau).",
     "Noise-free (LoG/DoG) or weak-noise (template matching) images; particle spacing >= 6 sigma / template size + 6.",
     "DESIGN.md section 4 C20")
